@@ -76,6 +76,12 @@ func genC14(t *rapid.T) C14Case {
 			op.IDSel = rapid.IntRange(0, 7).Draw(t, "idsel")
 		case "mutret":
 			op.Mut = rapid.IntRange(0, 5).Draw(t, "mut")
+		case "mine":
+			// 0: confirm the whole pool; k>0: confirm only a prefix of each kind
+			// (survivors stay pooled behind the dropped entries)
+			if kit.Chance(t, 60, "partial") {
+				op.Mut = rapid.IntRange(1, 3).Draw(t, "prefix")
+			}
 		}
 		c.Ops = append(c.Ops, op)
 	}
@@ -215,6 +221,9 @@ func runC14(c C14Case, cs *kit.CaseStats) error {
 
 	for oi, op := range c.Ops {
 		where := fmt.Sprintf("op %d (%s)", oi, op.Op)
+		if lerr := listedAreRetrievable(node); lerr != nil {
+			return fmt.Errorf("before %s: %w", where, lerr)
+		}
 		before := viewPool(node)
 		switch op.Op {
 		case "submit1", "submit2":
@@ -465,7 +474,14 @@ func runC14(c C14Case, cs *kit.CaseStats) error {
 		case "mine":
 			salt++
 			ts := L.Block.Timestamp.Add(1e9)
-			b := kit.AssembleBlock(L.State, ts, kit.Actors[0].Addr, before.v1, before.v2, salt)
+			mine1, mine2 := before.v1, before.v2
+			if op.Mut > 0 {
+				mine1, mine2 = mine1[:min(op.Mut, len(mine1))], mine2[:min(op.Mut-1, len(mine2))]
+				if len(mine1) < len(before.v1) || len(mine2) < len(before.v2) {
+					cs.Class("mined-part-of-the-pool")
+				}
+			}
+			b := kit.AssembleBlock(L.State, ts, kit.Actors[0].Addr, mine1, mine2, salt)
 			nl, err := L.Apply(b, nil)
 			if err != nil {
 				// whether the pool is minable is C05's business; mine an empty block
@@ -474,10 +490,10 @@ func runC14(c C14Case, cs *kit.CaseStats) error {
 					return fmt.Errorf("INFRA: cannot mine: %v", err)
 				}
 			} else {
-				for _, t := range before.v1 {
+				for _, t := range mine1 {
 					confirmed = append(confirmed, t.ID())
 				}
-				for _, t := range before.v2 {
+				for _, t := range mine2 {
 					confirmed = append(confirmed, t.ID())
 				}
 			}
@@ -489,6 +505,32 @@ func runC14(c C14Case, cs *kit.CaseStats) error {
 		}
 	}
 	cs.Classf("regime=%d", c.Regime)
+	if lerr := listedAreRetrievable(node); lerr != nil {
+		return fmt.Errorf("at the end: %w", lerr)
+	}
+	return nil
+}
+
+// listedAreRetrievable: what the pool lists must be found by id through the
+// lookup of its kind, and only there.
+func listedAreRetrievable(n *kit.Node) error {
+	pv := viewPool(n)
+	for _, t := range pv.v1 {
+		if g, ok := n.CM.PoolTransaction(t.ID()); !ok || g.ID() != t.ID() {
+			return fmt.Errorf("PoolTransactions lists %v but PoolTransaction reports it absent (or returns another transaction)", t.ID())
+		}
+		if _, ok := n.CM.V2PoolTransaction(t.ID()); ok {
+			return fmt.Errorf("V2PoolTransaction finds the v1 transaction %v", t.ID())
+		}
+	}
+	for _, t := range pv.v2 {
+		if g, ok := n.CM.V2PoolTransaction(t.ID()); !ok || g.ID() != t.ID() {
+			return fmt.Errorf("V2PoolTransactions lists %v but V2PoolTransaction reports it absent (or returns another transaction)", t.ID())
+		}
+		if _, ok := n.CM.PoolTransaction(t.ID()); ok {
+			return fmt.Errorf("PoolTransaction finds the v2 transaction %v", t.ID())
+		}
+	}
 	return nil
 }
 
